@@ -372,8 +372,25 @@ def clause_f(c: Check):
                  f.loc())
         dels = [e for e in p.trace if e.kind == 'delete']
         if dels:
-            guarded = any(truth and ("== ''" in unparse(g) or '== ""' in unparse(g)) for g, truth in p.guards)
-            c.expect(guarded and all(d.data == ['lines[-1]'] for d in dels), 'C07-f',
+            def is_empty_last_test(g) -> bool:
+                if not (isinstance(g, ast.Compare) and len(g.ops) == 1 and isinstance(g.ops[0], ast.Eq)):
+                    return False
+                sides = [g.left, g.comparators[0]]
+                consts = [x for x in sides if isinstance(x, ast.Constant) and x.value == '']
+                subs = [x for x in sides if isinstance(x, ast.Subscript)]
+                return len(consts) == 1 and len(subs) == 1 and c.fo.fold(f.module, f, subs[0].slice) == -1
+
+            guarded = any(truth and is_empty_last_test(g) for g, truth in p.guards)
+            def last_of_split(t):
+                if not (isinstance(t, ast.Subscript) and isinstance(t.value, ast.Name)):
+                    return False
+                idx = c.fo.fold(f.module, f, t.slice)
+                if idx != -1:
+                    return False
+                return any(kind == 'assign' and isinstance(value, ast.Call) and isinstance(value.func, ast.Attribute)
+                           and value.func.attr == 'split' for kind, value, _ in f.local_bindings().get(t.value.id, []))
+
+            c.expect(guarded and all(all(last_of_split(t) for t in d.node.targets) for d in dels), 'C07-f',
                      'parse_and_compute_source/only-trailing-empty-element-dropped',
                      'a source line is dropped although it is not the empty remainder after the final newline', f.loc())
         first = cons[0].data['args'][0] if cons[0].data['args'] else None
